@@ -63,7 +63,8 @@ def strategy(tier):
         st.tuples(st.just("prog"), st_program(cfg(tier))),
         st.tuples(st.just("prog"), st_program(cfg(tier))),
         st.tuples(st.just("opt"), c03.st_case(tier, p_restricted=12)),
-        st.tuples(st.just("opt"), c03.st_case(tier, p_restricted=12)),
+        # join operands may share non-key columns here (which values win is unspecified, the tree must still be well-formed)
+        st.tuples(st.just("opt"), c03.st_case(tier, p_restricted=12, p8=False)),
         # transfer, chain with a doomed leaf there, transfer back: the Processor prunes the chain and leaves a tree that
         # the factories themselves never build (engine A over engine B over engine A, transfers carrying payloads)
         st.tuples(st.just("prog"), st_roundtrip_over_pruned_chain(tier, cfg)),
@@ -261,7 +262,47 @@ def run_case(case, stats):
 EXHAUSTIVE_NOTE = "the base x final-operation grid of C03 (vf/checks/c03.py:grid_cases), every option combination"
 
 
+def shared_column_join_cases():
+    """Joins whose operands share a column beyond the join keys - which values win is unspecified, but the tree must be
+    well-formed: the tree calculates, downstream of the transfer, a (non-key or key) column the fixed operand also has."""
+    from vf.core.matrix import A, B, C, D
+    from vf.core.tags import VTag
+
+    N = VTag("n", False, 5)
+    universe = (A, B, C, D, N)
+    rows = ((2, 1), (0, 2), (1, 0))
+    for S in (0, 2):
+        for clash in (N, D):
+            leaves = (
+                ("L0", (A, B), rows, S, "data", (3, 3), "plain"),
+                ("L1", (A, clash), ((0, 7), (1, 8), (2, 9)), S, "data", (3, 3), "plain"),
+            )
+            x = ("xfer", ("leaf", 0), 1)
+            calc = ("calc", x, clash, ("neg", ("ref", A)))
+            bases = [
+                calc,
+                ("sel", calc, ("ge", ("ref", A), ("lit", 1))),
+                ("calc", ("sel", x, ("ge", ("ref", A), ("lit", 1))), clash, ("neg", ("ref", B))),
+                ("sort", calc, ((("ref", B), True),)),
+                ("calc", ("proj", x, (A,)), clash, ("ref", A)),
+            ]
+            for base in bases:
+                for is_lhs in (False, True):
+                    for pred in (None, ("ge", ("ref", A), ("lit", 0))):
+                        yield (universe, leaves, S, base, ("join", None, ("leaf", 1), pred, is_lhs))
+
+
 def exhaustive(tier, stats, shard, nshards, run):
+    for idx, body in enumerate(shared_column_join_cases()):
+        if idx % nshards != shard:
+            continue
+        case = ("opt", body)
+        try:
+            run(case)
+        except Violation as v:
+            v.case = case
+            raise
+        stats.c["shared_column_join_cases"] += 1
     for idx, case in enumerate(c03.grid_cases(tier)):
         if idx % nshards != shard:
             continue
